@@ -236,15 +236,20 @@ package types
 // Routing is by the controller's own identifier (C05): the identifier a controller reports when it is registered
 // is recorded (ghost route_id), so that the router can be required to file it under exactly that key.
 // ---------------------------------------------------------------------------------------------
+//@ macro isIBCAdapter(x) = istype(x, "*controller/adapter.IBCAdapter") && cast(x, "*controller/adapter.IBCAdapter") != nil && cast(x, "*controller/adapter.IBCAdapter").BaseController != nil
 //@ func (self ForwardingController) ID() (r)
 //@   sets-post route_id = r
 //@   modifies route_id
+//@   ensures[C05] isIBCAdapter(self) ==> r == cast(self, "*controller/adapter.IBCAdapter").BaseController.id
 //@ func (self ActionController) ID() (r)
 //@   sets-post route_id = r
 //@   modifies route_id
+//@   ensures[C05] isIBCAdapter(self) ==> r == cast(self, "*controller/adapter.IBCAdapter").BaseController.id
+//   the identifier the IBC adapter reports is the one it was built with
 //@ func (self AdapterController) ID() (r)
 //@   sets-post route_id = r
 //@   modifies route_id
+//@   ensures[C05] isIBCAdapter(self) ==> r == cast(self, "*controller/adapter.IBCAdapter").BaseController.id
 
 // The default module genesis (C17, C18): accepted by validation - so a chain started from it initialises -
 // with the zero passthrough limit and nothing paused.
